@@ -322,7 +322,11 @@ func runC12(pl *plan.Plan, out *plan.Outcome) {
 					// abrupt close in the middle of the last message
 					write(msg[:len(msg)/2])
 					env.Count("fault.abrupt_close_mid_message", 1)
-					if sc, ok := conn.(*simnet.Conn); ok {
+					raw := conn
+					if tc, ok := conn.(*tls.Conn); ok {
+						raw = tc.NetConn() // an encrypted client dies as abruptly: no close_notify, a reset
+					}
+					if sc, ok := raw.(*simnet.Conn); ok {
 						sc.Abort()
 					} else {
 						conn.Close()
